@@ -29,7 +29,7 @@ package crlrepository
 //@ func verifyCRLSignature
 //@   props C04 C07 C16
 //@   requires resultOK(result) && chains != nil && chainsOK(chains)
-//@   assigns E.uint8, X.stream, fresh:E.*core.CertificateChainEntry
+//@   assigns E.uint8, X.stream, X.spos, fresh:E.*core.CertificateChainEntry
 //@   ensures err == nil ==> ret != nil && ret.Certificate != nil && ret.RawCertificate != nil
 //@   ensures[C04] success_means_verified: err == nil ==> called(SignatureVerifyStrategy.VerifySignature#1) && res(SignatureVerifyStrategy.VerifySignature#1) == nil && arg(SignatureVerifyStrategy.VerifySignature#1, 2) == ret.Certificate.PublicKey && arg(SignatureVerifyStrategy.VerifySignature#1, 0) == result.HashAndVerifyStrategy.VerifyStrategy && arg(SignatureVerifyStrategy.VerifySignature#1, 1) == result.HashAndVerifyStrategy.HashStrategy && arg(SignatureVerifyStrategy.VerifySignature#1, 3) == result.CalculatedSignature && arg(SignatureVerifyStrategy.VerifySignature#1, 4) == result.Signature.Bytes
 //@   ensures[C04] signer_is_a_candidate: err == nil ==> called(FindCertificateIssuerCandidates#1) && (exists k int :: 0 <= k && k < len(res(FindCertificateIssuerCandidates#1, 0)) && res(FindCertificateIssuerCandidates#1, 0)[k] == ret)
@@ -130,7 +130,7 @@ package crlrepository
 //@   requires[C13] entry_lock_held: wheld(entry.entryLock)
 //@   requires entryInv(entry)
 //@   ensures entryInv(entry)
-//@   assigns crlrepository.Entry.CRLStore, crlrepository.Entry.Loaded, crlrepository.Entry.LastUpdateSignatureVerifyFailed, crlrepository.Entry.LastUpdateSignature, crlrepository.Entry.Chains, M.map[string][]uint8, X.ldbhas, X.fs, X.net, X.retry, X.stream, X.hacc, X.hkind, E.uint8, E.any, fresh:E.*core.CertificateChainEntry, H.crlloader.MultiSchemesCRLLoader, H.crlloader.URLLoader, H.crlloader.FileLoader
+//@   assigns crlrepository.Entry.CRLStore, crlrepository.Entry.Loaded, crlrepository.Entry.LastUpdateSignatureVerifyFailed, crlrepository.Entry.LastUpdateSignature, crlrepository.Entry.Chains, M.map[string][]uint8, X.ldbhas, X.fs, X.net, X.retry, X.stream, X.spos, X.hacc, X.hkind, E.uint8, E.any, fresh:E.*core.CertificateChainEntry, H.crlloader.MultiSchemesCRLLoader, H.crlloader.URLLoader, H.crlloader.FileLoader
 //@   ensures sameLocks()
 //@   ensures[C16,C04] loaded_only_if_accepted: entry.Loaded && !old(entry.Loaded) ==> err == nil && called(CRLReader.ReadCRL#1) && res(CRLReader.ReadCRL#1, 1) == nil && (sigMode(R) != config.SignatureValidationModeVerify || (called(verifyCRLSignature#1) && res(verifyCRLSignature#1, 1) == nil))
 //@   ensures[C16,C04] verify_failure_rejects: sigMode(R) == config.SignatureValidationModeVerify && called(verifyCRLSignature#1) && res(verifyCRLSignature#1, 1) != nil ==> err != nil && entry.Loaded == old(entry.Loaded)
@@ -141,14 +141,14 @@ package crlrepository
 //@ func Repository.loadActively
 //@   props C10 C13 C16
 //@   requires repoOK(R) && entryShell(entry) && unheld(entry.entryLock) && chains != nil && chainsOK(chains) && crlLocations != nil
-//@   assigns L.held, crlrepository.Entry.CRLStore, crlrepository.Entry.Loaded, crlrepository.Entry.LastUpdateSignatureVerifyFailed, crlrepository.Entry.LastUpdateSignature, crlrepository.Entry.Chains, M.map[string][]uint8, X.ldbhas, X.fs, X.net, X.retry, X.stream, X.hacc, X.hkind, E.uint8, E.any, fresh:E.*core.CertificateChainEntry, H.crlloader.MultiSchemesCRLLoader, H.crlloader.URLLoader, H.crlloader.FileLoader
+//@   assigns L.held, crlrepository.Entry.CRLStore, crlrepository.Entry.Loaded, crlrepository.Entry.LastUpdateSignatureVerifyFailed, crlrepository.Entry.LastUpdateSignature, crlrepository.Entry.Chains, M.map[string][]uint8, X.ldbhas, X.fs, X.net, X.retry, X.stream, X.spos, X.hacc, X.hkind, E.uint8, E.any, fresh:E.*core.CertificateChainEntry, H.crlloader.MultiSchemesCRLLoader, H.crlloader.URLLoader, H.crlloader.FileLoader
 //@   ensures sameLocks()
 
 //@ func Repository.updateCrlEntry
 //@   props C04 C08 C12 C13 C15 C16 C20
 //@   requires repoOK(R) && entryShell(entry) && unheld(entry.entryLock) && unheld(R.crlRepositoryLock) && norwlocks()
 //@   requires newChains != nil ==> chainsOK(newChains)
-//@   assigns L.held, crlrepository.Entry.CRLStore, crlrepository.Entry.Loaded, crlrepository.Entry.LastUpdateSignatureVerifyFailed, crlrepository.Entry.LastUpdateSignature, crlrepository.Entry.Chains, H.crlrepository.Repository.crlRepository, M.map[string]*crlrepository.Entry, crlstore.MapStore.Map, M.map[string][]uint8, crlstore.LevelDbStore.Db, H.crlloader.MultiSchemesCRLLoader, H.crlloader.URLLoader, H.crlloader.FileLoader, X.ldbhas, X.fs, X.net, X.retry, X.stream, X.hacc, X.hkind, E.uint8, E.any, E.string, fresh:E.*core.CertificateChainEntry, fresh:E.core.CertificateChain, fresh:E.core.CertificateChainEntry
+//@   assigns L.held, crlrepository.Entry.CRLStore, crlrepository.Entry.Loaded, crlrepository.Entry.LastUpdateSignatureVerifyFailed, crlrepository.Entry.LastUpdateSignature, crlrepository.Entry.Chains, H.crlrepository.Repository.crlRepository, M.map[string]*crlrepository.Entry, crlstore.MapStore.Map, M.map[string][]uint8, crlstore.LevelDbStore.Db, H.crlloader.MultiSchemesCRLLoader, H.crlloader.URLLoader, H.crlloader.FileLoader, X.ldbhas, X.fs, X.net, X.retry, X.stream, X.spos, X.hacc, X.hkind, E.uint8, E.any, E.string, fresh:E.*core.CertificateChainEntry, fresh:E.core.CertificateChain, fresh:E.core.CertificateChainEntry
 //@   ensures[C16] refresh_follows_policy: called(CRLReader.ReadCRL#1) && res(CRLReader.ReadCRL#1, 1) == nil && sigMode(R) != config.SignatureValidationModeVerify && called(verifyCRLSignature#1) && res(verifyCRLSignature#1, 1) != nil ==> err == nil
 //@   ensures[C04,C08,C16] no_swap_without_verification: called(Repository.updateEntry#1) ==> called(verifyCRLSignature#1) && res(verifyCRLSignature#1, 1) == nil
 //@   ensures[C08,C15] failed_refresh_keeps_entry: err != nil ==> !called(Repository.deleteEntrySync#1)
@@ -156,31 +156,31 @@ package crlrepository
 //@ func Repository.updateCRL
 //@   props C13 C15 C08
 //@   requires repoOK(R) && norwlocks()
-//@   assigns L.held, crlrepository.Entry.CRLStore, crlrepository.Entry.Loaded, crlrepository.Entry.LastUpdateSignatureVerifyFailed, crlrepository.Entry.LastUpdateSignature, crlrepository.Entry.Chains, H.crlrepository.Repository.crlRepository, M.map[string]*crlrepository.Entry, crlstore.MapStore.Map, M.map[string][]uint8, crlstore.LevelDbStore.Db, H.crlloader.MultiSchemesCRLLoader, H.crlloader.URLLoader, H.crlloader.FileLoader, X.ldbhas, X.fs, X.net, X.retry, X.stream, X.hacc, X.hkind, E.uint8, E.any, E.string, fresh:E.*core.CertificateChainEntry, fresh:E.core.CertificateChain, fresh:E.core.CertificateChainEntry
+//@   assigns L.held, crlrepository.Entry.CRLStore, crlrepository.Entry.Loaded, crlrepository.Entry.LastUpdateSignatureVerifyFailed, crlrepository.Entry.LastUpdateSignature, crlrepository.Entry.Chains, H.crlrepository.Repository.crlRepository, M.map[string]*crlrepository.Entry, crlstore.MapStore.Map, M.map[string][]uint8, crlstore.LevelDbStore.Db, H.crlloader.MultiSchemesCRLLoader, H.crlloader.URLLoader, H.crlloader.FileLoader, X.ldbhas, X.fs, X.net, X.retry, X.stream, X.spos, X.hacc, X.hkind, E.uint8, E.any, E.string, fresh:E.*core.CertificateChainEntry, fresh:E.core.CertificateChain, fresh:E.core.CertificateChainEntry
 
 //@ func Repository.UpdateCRLs
 //@   props C15 C13 C08
 //@   requires repoOK(R) && norwlocks()
-//@   assigns L.held, crlrepository.Entry.CRLStore, crlrepository.Entry.Loaded, crlrepository.Entry.LastUpdateSignatureVerifyFailed, crlrepository.Entry.LastUpdateSignature, crlrepository.Entry.Chains, H.crlrepository.Repository.crlRepository, M.map[string]*crlrepository.Entry, crlstore.MapStore.Map, M.map[string][]uint8, crlstore.LevelDbStore.Db, H.crlloader.MultiSchemesCRLLoader, H.crlloader.URLLoader, H.crlloader.FileLoader, X.ldbhas, X.fs, X.net, X.retry, X.stream, X.hacc, X.hkind, E.uint8, E.any, E.string, fresh:E.*core.CertificateChainEntry, fresh:E.core.CertificateChain, fresh:E.core.CertificateChainEntry
+//@   assigns L.held, crlrepository.Entry.CRLStore, crlrepository.Entry.Loaded, crlrepository.Entry.LastUpdateSignatureVerifyFailed, crlrepository.Entry.LastUpdateSignature, crlrepository.Entry.Chains, H.crlrepository.Repository.crlRepository, M.map[string]*crlrepository.Entry, crlstore.MapStore.Map, M.map[string][]uint8, crlstore.LevelDbStore.Db, H.crlloader.MultiSchemesCRLLoader, H.crlloader.URLLoader, H.crlloader.FileLoader, X.ldbhas, X.fs, X.net, X.retry, X.stream, X.spos, X.hacc, X.hkind, E.uint8, E.any, E.string, fresh:E.*core.CertificateChainEntry, fresh:E.core.CertificateChain, fresh:E.core.CertificateChainEntry
 //@   loop 1 invariant repoOK(R) && norwlocks()
 
 //@ func Repository.UpdateCRL
 //@   props C15 C16 C13
 //@   requires repoOK(R) && norwlocks() && crlLocations != nil
 //@   requires chains != nil ==> chainsOK(chains)
-//@   assigns L.held, crlrepository.Entry.CRLStore, crlrepository.Entry.Loaded, crlrepository.Entry.LastUpdateSignatureVerifyFailed, crlrepository.Entry.LastUpdateSignature, crlrepository.Entry.Chains, H.crlrepository.Repository.crlRepository, M.map[string]*crlrepository.Entry, crlstore.MapStore.Map, M.map[string][]uint8, crlstore.LevelDbStore.Db, H.crlloader.MultiSchemesCRLLoader, H.crlloader.URLLoader, H.crlloader.FileLoader, X.ldbhas, X.fs, X.net, X.retry, X.stream, X.hacc, X.hkind, E.uint8, E.any, E.string, fresh:E.*core.CertificateChainEntry, fresh:E.core.CertificateChain, fresh:E.core.CertificateChainEntry
+//@   assigns L.held, crlrepository.Entry.CRLStore, crlrepository.Entry.Loaded, crlrepository.Entry.LastUpdateSignatureVerifyFailed, crlrepository.Entry.LastUpdateSignature, crlrepository.Entry.Chains, H.crlrepository.Repository.crlRepository, M.map[string]*crlrepository.Entry, crlstore.MapStore.Map, M.map[string][]uint8, crlstore.LevelDbStore.Db, H.crlloader.MultiSchemesCRLLoader, H.crlloader.URLLoader, H.crlloader.FileLoader, X.ldbhas, X.fs, X.net, X.retry, X.stream, X.spos, X.hacc, X.hkind, E.uint8, E.any, E.string, fresh:E.*core.CertificateChainEntry, fresh:E.core.CertificateChain, fresh:E.core.CertificateChainEntry
 
 //@ func Repository.AddCRL
 //@   props C10 C13 C16
 //@   requires repoOK(R) && norwlocks() && crlLocations != nil && chains != nil && chainsOK(chains)
-//@   assigns L.held, crlrepository.Entry.CRLStore, crlrepository.Entry.Loaded, crlrepository.Entry.LastUpdateSignatureVerifyFailed, crlrepository.Entry.LastUpdateSignature, crlrepository.Entry.Chains, H.crlrepository.Repository.crlRepository, M.map[string]*crlrepository.Entry, crlstore.MapStore.Map, M.map[string][]uint8, crlstore.LevelDbStore.Db, H.crlloader.MultiSchemesCRLLoader, H.crlloader.URLLoader, H.crlloader.FileLoader, X.ldbhas, X.fs, X.net, X.retry, X.stream, X.hacc, X.hkind, E.uint8, E.any, E.string, fresh:E.*core.CertificateChainEntry, fresh:E.core.CertificateChain, fresh:E.core.CertificateChainEntry
+//@   assigns L.held, crlrepository.Entry.CRLStore, crlrepository.Entry.Loaded, crlrepository.Entry.LastUpdateSignatureVerifyFailed, crlrepository.Entry.LastUpdateSignature, crlrepository.Entry.Chains, H.crlrepository.Repository.crlRepository, M.map[string]*crlrepository.Entry, crlstore.MapStore.Map, M.map[string][]uint8, crlstore.LevelDbStore.Db, H.crlloader.MultiSchemesCRLLoader, H.crlloader.URLLoader, H.crlloader.FileLoader, X.ldbhas, X.fs, X.net, X.retry, X.stream, X.spos, X.hacc, X.hkind, E.uint8, E.any, E.string, fresh:E.*core.CertificateChainEntry, fresh:E.core.CertificateChain, fresh:E.core.CertificateChainEntry
 //@   ensures norwlocks()
 
 //@ func Repository.tryUpdateSignatureCertFromChain
 //@   props C13
 //@   requires repoOK(R) && entryShell(entry) && chains != nil && chainsOK(chains)
 //@   requires[C13] entry_lock_not_held: unheld(entry.entryLock)
-//@   assigns L.held, crlrepository.Entry.CRLStore, crlrepository.Entry.Loaded, crlrepository.Entry.LastUpdateSignatureVerifyFailed, crlrepository.Entry.LastUpdateSignature, crlrepository.Entry.Chains, M.map[string][]uint8, X.ldbhas, X.fs, E.uint8, X.stream, fresh:E.*core.CertificateChainEntry
+//@   assigns L.held, crlrepository.Entry.CRLStore, crlrepository.Entry.Loaded, crlrepository.Entry.LastUpdateSignatureVerifyFailed, crlrepository.Entry.LastUpdateSignature, crlrepository.Entry.Chains, M.map[string][]uint8, X.ldbhas, X.fs, E.uint8, X.stream, X.spos, fresh:E.*core.CertificateChainEntry
 //@   ensures sameLocks()
 
 // ---- lookup (C01 C09 C10 C11)
@@ -188,7 +188,7 @@ package crlrepository
 //@ func Repository.checkCrl
 //@   props C01 C09 C11 C13
 //@   requires repoOK(R) && norwlocks() && certificate != nil
-//@   assigns L.held, crlrepository.Entry.CRLStore, crlrepository.Entry.Loaded, crlrepository.Entry.LastUpdateSignatureVerifyFailed, crlrepository.Entry.LastUpdateSignature, crlrepository.Entry.Chains, X.fs, E.uint8, X.stream
+//@   assigns L.held, crlrepository.Entry.CRLStore, crlrepository.Entry.Loaded, crlrepository.Entry.LastUpdateSignatureVerifyFailed, crlrepository.Entry.LastUpdateSignature, crlrepository.Entry.Chains, X.fs, E.uint8, X.stream, X.spos
 //@   ensures sameLocks()
 //@   ensures err == nil ==> ret != nil
 //@   ensures[C09] store_error_is_error: called(CRLStore.GetCertRevocationStatus#1) && res(CRLStore.GetCertRevocationStatus#1, 1) != nil ==> err != nil
@@ -199,7 +199,7 @@ package crlrepository
 //@ func Repository.IsRevoked
 //@   props C01 C09 C10 C11 C13
 //@   requires repoOK(R) && norwlocks() && certificate != nil
-//@   assigns L.held, crlrepository.Entry.CRLStore, crlrepository.Entry.Loaded, crlrepository.Entry.LastUpdateSignatureVerifyFailed, crlrepository.Entry.LastUpdateSignature, crlrepository.Entry.Chains, H.crlrepository.Repository.crlRepository, M.map[string]*crlrepository.Entry, crlstore.MapStore.Map, M.map[string][]uint8, crlstore.LevelDbStore.Db, H.crlloader.MultiSchemesCRLLoader, H.crlloader.URLLoader, H.crlloader.FileLoader, X.ldbhas, X.fs, X.net, X.retry, X.stream, X.hacc, X.hkind, E.uint8, E.any, E.string, fresh:E.*core.CertificateChainEntry, fresh:E.core.CertificateChain, fresh:E.core.CertificateChainEntry
+//@   assigns L.held, crlrepository.Entry.CRLStore, crlrepository.Entry.Loaded, crlrepository.Entry.LastUpdateSignatureVerifyFailed, crlrepository.Entry.LastUpdateSignature, crlrepository.Entry.Chains, H.crlrepository.Repository.crlRepository, M.map[string]*crlrepository.Entry, crlstore.MapStore.Map, M.map[string][]uint8, crlstore.LevelDbStore.Db, H.crlloader.MultiSchemesCRLLoader, H.crlloader.URLLoader, H.crlloader.FileLoader, X.ldbhas, X.fs, X.net, X.retry, X.stream, X.spos, X.hacc, X.hkind, E.uint8, E.any, E.string, fresh:E.*core.CertificateChainEntry, fresh:E.core.CertificateChain, fresh:E.core.CertificateChainEntry
 //@   ensures err == nil ==> ret != nil
 //@   ensures[C10] strict_gate: locations != nil && R.crlConfig.CDPConfig.CRLCDPStrict && called(Repository.isEntryPresentAndLoaded#1) && !res(Repository.isEntryPresentAndLoaded#1) ==> err != nil
 //@   ensures[C10] strict_unusable_location_denies: locations != nil && R.crlConfig.CDPConfig.CRLCDPStrict && called(CRLLoaderFactory.CreatePreferredCrlLoader#1) && res(CRLLoaderFactory.CreatePreferredCrlLoader#1, 1) != nil ==> err != nil
